@@ -359,15 +359,22 @@ def _apply_star(t):
 
 
 class SimThreadPool(SimPool):
-    """Thread-flavoured pool: tasks run unpickled, one at a time, in a scheduler-chosen order."""
+    """Thread-flavoured pool: tasks run unpickled and share memory; up to `processes` of them are in flight
+    at a time, interleaved between package lines by the tape (sim/simthreads.py)."""
 
     def _run_chunks(self, func, iterable, mapper, chunksize, ordered=True):
+        from . import simthreads
         sim = self.sim
         items = list(iterable)
         order = sim.shuffled(range(len(items)), "thread-task-order")
         out: list[Any] = [None] * len(items)
-        for i in order:
-            out[i] = func(*items[i]) if mapper is starmapstar else func(items[i])
+        width = max(1, min(self.processes, 4))
+        for start in range(0, len(order), width):
+            batch = order[start:start + width]
+            thunks = [(lambda it=items[i]: func(*it) if mapper is starmapstar else func(it)) for i in batch]
+            res = simthreads.interleave(sim, thunks) if len(thunks) > 1 else [thunks[0]()]
+            for i, r in zip(batch, res):
+                out[i] = r
         sim.event("threadpool", "map", len(items), order)
         return out if ordered else [out[i] for i in order]
 
